@@ -321,7 +321,14 @@ def rule_own_fields(ctx: Ctx, rep: Report) -> None:
     rule_own_fields_forwarded(ctx, rep, "C14.own_fields", ('btclib.descriptors.descriptors', 'btclib.descriptors.key_expression', 'btclib.wallet'), 20)
 
 
+def rule_params_forwarded_(ctx: Ctx, rep: Report) -> None:
+    """C14.params_forwarded: a parameter is handed on to callees that have a parameter of the same name (see sigcommon.rule_params_forwarded)."""
+    from rules.sigcommon import rule_params_forwarded
+    rule_params_forwarded(ctx, rep, "C14.params_forwarded", ('btclib.descriptors.descriptors', 'btclib.descriptors.key_expression', 'btclib.wallet', 'btclib.core_import'), 100)
+
+
 RULES = [
+    ("C14.params_forwarded", rule_params_forwarded_),
     ("C14.own_fields", rule_own_fields),
     ("C14.checksum_gate", rule_checksum_gate),
     ("C14.grammar", rule_grammar),
